@@ -72,7 +72,7 @@ def plan(ctx):
         keep = []
         for c in cases:
             head = c['cxx'].split('<')[0].strip()
-            key = head + ('/' + str(c['cxx'].count('sym')) if head in ('seq', 'sor', 'rematch', 'until', 'must', 'opt_must', 'if_must') else '') + ('::' if '::' in c['cxx'] else '')
+            key = head + ('/' + str(c['cxx'].count('sym')) if head in ('seq', 'sor', 'rematch', 'until', 'must', 'opt_must', 'if_must', 'star_strict', 'strict', 'star_must', 'partial') else '') + ('::' if '::' in c['cxx'] else '')
             if (key in seen and not c['name'].startswith('x_')) or c['heavy']:
                 continue
             seen.add(key)
